@@ -255,12 +255,65 @@ C08GridClauses ==
        ClauseAt("ChiNaNOnOpen", \A x \in XS : \A y \in YS : (Obs.chi_nan[loc][x + 1][y + 1] = 1) = ~OnClosed(x, y), loc)
 
 --------------------------------------------------------------------------
+(* C16: a pair of grids, A (this trace's tables) and B *)
+\* image under the midplane reflection of cell (x, y) of A: same x, region MirrorRegion, rows reversed
+MirY(y) == LET r == RegY(y)
+               rb == MirrorRegion(T, r)
+               k == y - RY0(r)
+               connB == PhysConn(MirrorTopo(T))
+           IN Y0(connB, Obs.B.ny, cfg.G, rb) + (NyG(connB, Obs.B.ny, cfg.G, rb) - 1 - k)
+\* how each variable changes under the transformation: +1 same, -1 sign flips, 0 not compared
+SignTable(kind, v) ==
+  CASE kind = "same" -> 1
+    [] kind = "negpsi" -> IF v \in {"psixy", "Bpxy", "Brxy", "Bzxy", "J", "dx", "dphidy"} THEN -1 ELSE 1
+    [] kind = "revbt" -> IF v \in {"Btxy", "g23", "g_23", "dphidy", "zShift"} THEN -1 ELSE 1
+    [] kind = "mirror" -> IF v \in {"zShift", "Brxy", "Bzxy"} THEN 0 ELSE 1
+    [] OTHER -> 0
+C16Clauses ==
+  LET PA == Obs.pos.A  PB == Obs.pos.B  mir == Obs.kind = "mirror"
+      yb(y) == IF mir THEN MirY(y) ELSE y
+      zs == IF mir THEN -1 ELSE 1
+  IN
+  /\ ClauseAt("PairSizes", Obs.B.NX = NX /\ Obs.B.NY = NY /\ Obs.B.G = cfg.G /\ Obs.B.nx = cfg.nx
+                 /\ Obs.B.topo = (IF mir THEN MirrorTopo(T) ELSE T)
+                 /\ (mir => \A r \in 1..NR(T) : Obs.B.ny[MirrorRegion(T, r)] = cfg.ny[r])
+                 /\ (~mir => Obs.B.ny = cfg.ny), "pair")
+  /\ ClauseAt("MirrorIntsAsDocumented", ~mir \/
+        LET TB == [nx |-> Obs.B.ints.nx, ny |-> Obs.B.ints.ny, ix1 |-> Obs.B.ints.ixseps1, ix2 |-> Obs.B.ints.ixseps2, j11 |-> Obs.B.ints.jyseps1_1,
+                   j21 |-> Obs.B.ints.jyseps2_1, nyInner |-> Obs.B.ints.ny_inner, j12 |-> Obs.B.ints.jyseps1_2, j22 |-> Obs.B.ints.jyseps2_2,
+                   G |-> Obs.B.ints.y_boundary_guards]
+        IN (IF IsSN(MirrorTopo(T)) THEN [TB EXCEPT !.nyInner = 0] ELSE TB) \in SpecIntsSet(MirrorTopo(T), cfg.nx, Obs.B.ny, cfg.G)
+           /\ Obs.B.conn = PhysConn(MirrorTopo(T)), "pair")
+  \* positions: equal R, Z equal or negated; a lower y-face of A is the upper y-face of the mirrored cell
+  /\ ClauseAt("PairPositions", \A x \in XS : \A y \in YS : IsGuard(y) \/
+        /\ Near(PA.Rc[x + 1][y + 1], PB.Rc[x + 1][yb(y) + 1], 50) /\ Near(PA.Zc[x + 1][y + 1], zs * PB.Zc[x + 1][yb(y) + 1], 50)
+        /\ Near(PA.Rx[x + 1][y + 1], PB.Rx[x + 1][yb(y) + 1], 50) /\ Near(PA.Zx[x + 1][y + 1], zs * PB.Zx[x + 1][yb(y) + 1], 50)
+        \* y-faces inside a region (a lower face of A is the upper face of the mirrored cell)
+        /\ (y = RY0(RegY(y)) \/
+             IF mir THEN Near(PA.Rlo[x + 1][y + 1], PB.Rhi[x + 1][yb(y) + 1], 50) /\ Near(PA.Zlo[x + 1][y + 1], -PB.Zhi[x + 1][yb(y) + 1], 50)
+                    ELSE Near(PA.Rlo[x + 1][y + 1], PB.Rlo[x + 1][y + 1], 50) /\ Near(PA.Zlo[x + 1][y + 1], PB.Zlo[x + 1][y + 1], 50)), "cells")
+  \* y-faces that are joins between regions (the first face of a region that has a lower neighbour)
+  /\ ClauseAt("PairJoinFaces", \A x \in XS : \A y \in YS : (IsGuard(y) \/ y # RY0(RegY(y)) \/ Down(x, y) = -1) \/
+             IF mir THEN Near(PA.Rlo[x + 1][y + 1], PB.Rhi[x + 1][yb(y) + 1], 50) /\ Near(PA.Zlo[x + 1][y + 1], -PB.Zhi[x + 1][yb(y) + 1], 50)
+                    ELSE Near(PA.Rlo[x + 1][y + 1], PB.Rlo[x + 1][y + 1], 50) /\ Near(PA.Zlo[x + 1][y + 1], PB.Zlo[x + 1][y + 1], 50), "joins")
+  /\ ClauseAt("PairPositionsGuardCells", \A x \in XS : \A y \in YS : ~IsGuard(y) \/
+        /\ Near(PA.Rc[x + 1][y + 1], PB.Rc[x + 1][yb(y) + 1], 50) /\ Near(PA.Zc[x + 1][y + 1], zs * PB.Zc[x + 1][yb(y) + 1], 50), "guards")
+  \* fields: equal, or with the sign the table gives (magnitudes for the mirror)
+  /\ \A k \in 1..Len(Obs.scnames) :
+       LET v == Obs.scnames[k]
+           sg == SignTable(Obs.kind, v)
+       IN ClauseAt("PairField_" \o v, sg = 0 \/ \A x \in XS : \A y \in YS : IsGuard(y) \/
+             LET a == Obs.sc[v].A[x + 1][y + 1]  b == Obs.sc[v].B[x + 1][yb(y) + 1] IN
+             IF mir /\ v \notin {"psixy", "hy", "Bxy"} THEN Near(Abs(a), Abs(b), 100) ELSE Near(a, sg * b, 100), Obs.kind)
+
+--------------------------------------------------------------------------
 Observe ==
   /\ stage = "file"
   /\ CASE Obs.prop = "C01" -> C01Clauses
        [] Obs.prop = "C02" -> PairClauses
        [] Obs.prop = "C03" -> PairClauses /\ C03Extra
        [] Obs.prop = "C08" -> C08GridClauses
+       [] Obs.prop = "C16" -> C16Clauses
        [] Obs.prop = "C05" -> C05Clauses
        [] Obs.prop = "C06" -> C06Clauses
        [] OTHER -> TRUE
